@@ -14,7 +14,11 @@ from contracts._common import ViolationT, PathT, path_str
 from contracts.c04_ignore import ParserT, header_ignores, content_ignores, IG
 from contracts.c04_checkers import InlineParserT, CtxT
 from contracts.c05_config import DRYConfigT
-from contracts.c08_state import DRYRuleT
+from contracts.c03_report import DRYRuleT as _C03RuleT  # storage / analyzer fields as C03's verified plumbing contracts need them
+from contracts.c08_state import ConstEntryT
+
+DRYRuleT = _C03RuleT.extend(_file_contents=Dict, _project_root=Opt(PathT), _constants=SeqOf(ConstEntryT),
+                            _helpers=_C03RuleT.fields["_helpers"].extend(inline_ignore=InlineParserT))
 
 DRY = "src/linters/dry/linter.py::"
 VG = "src/linters/dry/violation_generator.py::"
@@ -58,21 +62,8 @@ class InlineParseFile:
         return True
 
 
-@contract(DRY + "DRYRule._ensure_storage_initialized", props=["C04"], types=dict(self=DRYRuleT, context=CtxT, config=DRYConfigT),
-          modifies=["self._storage", "self._file_analyzer", "self._initialized"],
-          assumed="creates the sqlite block store / file analyzer on first use (C03/C08's business): frame only -- it does "
-                  "not touch the content cache")
-class DryEnsureStorage:
-    def ensures(self):
-        return True
-
-
-@contract(DRY + "DRYRule._analyze_and_store", props=["C04"], types=dict(self=DRYRuleT, context=CtxT, config=DRYConfigT),
-          assumed="tokenises the file and adds its blocks to the store (C03's business): frame only -- no field of the rule "
-                  "is reassigned")
-class DryAnalyzeAndStore:
-    def ensures(self):
-        return True
+# DRYRule._ensure_storage_initialized / _analyze_and_store: verified contracts of property C03 (contracts/c03_report.py);
+# their preconditions (a valid storage mode, a positive window) are part of _process_file's below
 
 
 @contract(DRY + "DRYRule._extract_and_store_constants", props=["C04"], types=dict(self=DRYRuleT, context=CtxT),
@@ -87,9 +78,10 @@ class DryExtractConstants:
           modifies=["self._file_contents", "self._project_root", "self._storage", "self._file_analyzer", "self._initialized",
                     "self._constants", "self._helpers.inline_ignore._ignore_ranges"])
 class DryProcessFile:
-    def requires(context):
-        # established by should_process_file in DRYRule.check
-        return context.file_path is not None and context.file_content is not None
+    def requires(context, config):
+        # established by should_process_file in DRYRule.check; the config is a validated DRYConfig (__post_init__)
+        return context.file_path is not None and context.file_content is not None \
+            and config.storage_mode in ("memory", "tempfile") and config.min_duplicate_lines >= 1
 
     def ensures_text_cached_under_the_spelling_violations_carry(self, context):
         return cached_text(self._file_contents, path_str(context.file_path)) == context.file_content \
@@ -166,6 +158,8 @@ def dry_key_coherence(rule, ctx, cfg, v, parser):
     """After _process_file(ctx), a violation carrying the spelling str(ctx.file_path) that is silenced by a directive in
     ctx.file_content is kept by neither filter (they look the text up under that very spelling)."""
     if ctx.file_path is None or ctx.file_content is None or v.file_path != path_str(ctx.file_path):
+        return True
+    if cfg.storage_mode not in ("memory", "tempfile") or cfg.min_duplicate_lines < 1:
         return True
     if not (header_ignores(ctx.file_content, v.rule_id) or content_ignores(ctx.file_content, v.line, v.rule_id)):
         return True
